@@ -8,7 +8,8 @@ P = {
                  "C04_later_only_if_all_earlier_nocreds_or_optin",
                  "C04_rejected_without_optin_fails_even_if_later_accepts", "C04_rejected_without_optin_exact",
                  "C04_no_credentials_iff_none_presented", "C04_kindless_never_no_credentials", "C04_fallback_only_if_opted_in",
-                 "C04_typed_later_only_if", "C04_typed_first_success", "C04_typed_rejected_blocks", "C04_named_rejections_block"],
+                 "C04_typed_later_only_if", "C04_typed_first_success", "C04_typed_rejected_blocks", "C04_named_rejections_block",
+                 "C04_checked_predicate_implies_spec", "C04_model_passes_checked_predicate"],
     "streams": [{
         "name": "chains", "pkg": "./internal/rules", "test": "TestVerifC04",
         "overlay": {"internal/rules/zz_verif_c04_test.go": "c04/c04_test.go",
